@@ -286,6 +286,7 @@ func TestC05(t *testing.T) {
 	// the oracle compares the JSON with what the decoder returned, so templates may also declare fixed-size
 	// elements longer than their type (decodable, hence published, though outside RFC 7011)
 	envs["ipfix"].OffSpecLengths, envs["nf9"].OffSpecLengths = true, true
+	envs["ipfix"].Big, envs["nf9"].Big = true, true
 	rapid.Check(t, func(t *rapid.T) {
 		c := c05Case{Proto: rapid.SampledFrom([]string{"ipfix", "ipfix", "nf9", "nf9", "nf5", "sflow"}).Draw(t, "proto")}
 		switch c.Proto {
